@@ -254,6 +254,64 @@ Proof.
     destruct (authorized_some_permitted _ _ _ _ _ _ ND AZ A) as [P _]. exact P.
 Qed.
 
+(* ------------------------------------------------------------------ combined_layers *)
+
+Lemma combine_from_expand : forall compat rest cur,
+  expand_groups (combine_from compat cur rest) = map (fun s => (fst cur, s)) (snd cur) ++ rest.
+Proof.
+  intros compat rest. induction rest as [|[lim s] r IH]; intros [cl cs].
+  - cbn. rewrite app_nil_r. reflexivity.
+  - cbn [combine_from fst snd]. destruct cl as [g|]; [|destruct lim as [g|]].
+    + change (expand_groups ((Some g, cs) :: combine_from compat (lim, [s]) r))
+        with (map (fun x => (Some g, x)) cs ++ expand_groups (combine_from compat (lim, [s]) r)).
+      rewrite IH. reflexivity.
+    + change (expand_groups ((None, cs) :: combine_from compat (Some g, [s]) r))
+        with (map (fun x => (@None Z, x)) cs ++ expand_groups (combine_from compat (Some g, [s]) r)).
+      rewrite IH. reflexivity.
+    + destruct (compat cs s).
+      * rewrite IH. cbn [fst snd]. rewrite map_app, <- app_assoc. reflexivity.
+      * change (expand_groups ((None, cs) :: combine_from compat (None, [s]) r))
+          with (map (fun x => (@None Z, x)) cs ++ expand_groups (combine_from compat (None, [s]) r)).
+        rewrite IH. reflexivity.
+Qed.
+
+Lemma combine_entries_expand : forall compat rl, expand_groups (combine_entries compat rl) = rl.
+Proof.
+  intros compat [|[lim s] r]; [reflexivity|]. unfold combine_entries. rewrite combine_from_expand. reflexivity.
+Qed.
+
+Lemma combine_from_limited_alone : forall compat rest cur g srcs,
+  (forall h, fst cur = Some h -> length (snd cur) = 1%nat) ->
+  In (Some g, srcs) (combine_from compat cur rest) -> length srcs = 1%nat.
+Proof.
+  intros compat rest. induction rest as [|[lim s] r IH]; intros [cl cs] g srcs W Hin.
+  - cbn in Hin. destruct Hin as [E|[]]. inversion E; subst. apply (W g). reflexivity.
+  - cbn [combine_from fst snd] in Hin. destruct cl as [h|]; [|destruct lim as [h|]].
+    + destruct Hin as [E|Hin].
+      * inversion E; subst. apply (W g). reflexivity.
+      * apply (IH (lim, [s]) g srcs); [intros; reflexivity|exact Hin].
+    + destruct Hin as [E|Hin]; [discriminate|].
+      apply (IH (Some h, [s]) g srcs); [intros; reflexivity|exact Hin].
+    + destruct (compat cs s).
+      * apply (IH (None, cs ++ [s]) g srcs); [intros h E; discriminate|exact Hin].
+      * destruct Hin as [E|Hin]; [discriminate|].
+        apply (IH (None, [s]) g srcs); [intros h E; discriminate|exact Hin].
+Qed.
+
+Lemma combine_entries_limited_alone : forall compat rl g srcs,
+  In (Some g, srcs) (combine_entries compat rl) -> length srcs = 1%nat.
+Proof.
+  intros compat [|[lim s] r] g srcs Hin; [contradiction|].
+  apply (combine_from_limited_alone compat r (lim, [s]) g srcs); [intros; reflexivity|exact Hin].
+Qed.
+
+Example ex_combine : combine_entries (fun _ _ => true) [(None, 1); (None, 2); (Some 7, 3); (Some 7, 4); (None, 5)]
+                     = [(None, [1; 2]); (Some 7, [3]); (Some 7, [4]); (None, [5])].
+Proof. reflexivity. Qed.
+Example ex_groups_ok : groups_ok [(None, 1); (None, 2); (Some 7, 3); (Some 7, 4)] [(None, [1; 2]); (Some 7, [3]); (Some 7, [4])] = true
+                       /\ groups_ok [(Some 7, 3); (Some 8, 4)] [(Some 7, [3; 4])] = false.
+Proof. split; reflexivity. Qed.
+
 (* ------------------------------------------------------------------ WMS GetFeatureInfo *)
 
 Lemma wms_fi_entry : forall tree ql ls r pt_in rl cov n lim s,
